@@ -79,6 +79,40 @@ mod routing_table;
 mod store;
 mod types;
 
+#[cfg(litep2p_verif)]
+pub mod verif {
+    //! Re-exports of the crate-private Kademlia components (verification only).
+    pub use super::{
+        bucket::KBucketEntry,
+        message::KademliaMessage,
+        query::{QueryAction, QueryEngine, QueryId},
+        record::ProviderRecord,
+        routing_table::RoutingTable,
+        store::{MemoryStore, MemoryStoreAction, MemoryStoreConfig},
+        types::{ConnectionType, Distance, KademliaPeer, Key},
+    };
+
+    /// Peer ID of a [`KademliaPeer`].
+    pub fn peer_of(p: &KademliaPeer) -> crate::PeerId {
+        p.peer
+    }
+
+    /// Key of a [`KademliaPeer`].
+    pub fn key_of(p: &KademliaPeer) -> Key<crate::PeerId> {
+        p.key.clone()
+    }
+
+    /// Connection type of a [`KademliaPeer`].
+    pub fn connection_of(p: &KademliaPeer) -> ConnectionType {
+        p.connection
+    }
+
+    /// Set the connection type of a [`KademliaPeer`].
+    pub fn set_connection(p: &mut KademliaPeer, connection: ConnectionType) {
+        p.connection = connection;
+    }
+}
+
 mod schema {
     pub(super) mod kademlia {
         include!(concat!(env!("OUT_DIR"), "/kademlia.rs"));
